@@ -29,6 +29,7 @@ PLAN = [
              "C10-e": "centre and scale use the statement's u and v"}),
     ("C12", {"C12-b": "λ is the Gamma(dod) quantile of its own coordinate"}),
     ("C14", {"C14-c": "each coordinate's value enters one stage only (independence of the stages' inputs)"}),
+    ("C20", {"C20-a": "for T = f64 the scalar operations these formulas are written in (powf, sqrt, ln, exp, cos, sin, …) are std's"}),
 ]
 
 
